@@ -17,6 +17,7 @@
 #include <string>
 #include <iostream>
 #include <limits>
+#include <cmath>
 
 namespace cppcms {
 ///
@@ -682,13 +683,23 @@ namespace json {
 
 	#undef CPPCMS_JSON_SPECIALIZE
 	
+	// get: converting a number that is outside of the range of the type is undefined, so the range is checked first
 	#define CPPCMS_JSON_SPECIALIZE_INT(type) 			\
 	template<>							\
 	struct traits<type> {						\
 		static type get(value const &v)				\
 		{							\
-			type res=static_cast<type>(v.number());		\
-			if(res!=v.number())				\
+			double num=v.number();				\
+			double lim=std::ldexp(1.0,			\
+				std::numeric_limits<type>::digits);	\
+			if(!(num < lim) || !(				\
+				std::numeric_limits<type>::is_signed 	\
+				? num >= -lim : num > -1.0))		\
+			{						\
+				throw bad_value_cast();			\
+			}						\
+			type res=static_cast<type>(num);		\
+			if(res!=num)					\
 				throw bad_value_cast();			\
 			return res;					\
 		}							\
